@@ -352,6 +352,7 @@ type stepObs struct {
 	Comp   []int64 `json:"comp"`
 	Wlen   int64   `json:"wlen"`
 	Note   string  `json:"note,omitempty"`
+	Leak   string  `json:"leak,omitempty"` // a concurrent reader saw a value that was neither in force before nor after the update
 }
 
 func (l leaf) coq() string {
@@ -749,9 +750,47 @@ func childTxn() {
 					config.VerifResetRestartNeeded()
 				}
 			}
+			// a concurrent reader: while the update is checked, written and committed, every Read() returns either the
+			// value in force before the update or the one in force after it — never a value that is only staged
+			before := make([]val, len(fs))
+			for i, f := range fs {
+				before[i] = valOf(f.read())
+			}
+			seenVals := make([]map[val]bool, len(fs))
+			stopPoll := make(chan struct{})
+			polled := make(chan struct{})
+			go func() {
+				defer close(polled)
+				for {
+					for i, f := range fs {
+						v := valOf(f.read())
+						if v != before[i] {
+							if seenVals[i] == nil {
+								seenVals[i] = map[val]bool{}
+							}
+							seenVals[i][v] = true
+						}
+					}
+					select {
+					case <-stopPoll:
+						return
+					default:
+					}
+				}
+			}()
 			setFileLimit(st.Limit)
 			obs.Status = safeUpdate(cfg, m)
 			setFileLimit(-1)
+			close(stopPoll)
+			<-polled
+			for i, f := range fs {
+				after := valOf(f.read())
+				for v := range seenVals[i] {
+					if v != after && obs.Leak == "" {
+						obs.Leak = fmt.Sprintf("%s read as %v while the update ran; in force before: %v, after: %v", f.path(), v, before[i], after)
+					}
+				}
+			}
 		}
 		// quiescence: every listener (recorders and the cache's own) has been handed everything
 		deadline := time.Now().Add(10 * time.Second)
@@ -1307,6 +1346,10 @@ func (g *gen) genHistory(l0 int64) txnCase {
 			lim = g.limitNear(l0)
 		}
 		c.steps = append(c.steps, stepIn{Kind: "update", Doc: doc, Limit: lim})
+		if lim >= 0 && r.Chance(50) {
+			// the fault is gone and the very same update is sent again
+			c.steps = append(c.steps, stepIn{Kind: "update", Doc: doc, Limit: -1})
+		}
 	}
 	return c
 }
@@ -1319,6 +1362,7 @@ type txnResult struct {
 	status   map[string]int
 	died     bool
 	nontriv  bool
+	leaks    []string
 }
 
 func (g *gen) runHistory(c txnCase) txnResult {
@@ -1417,6 +1461,10 @@ func (g *gen) runHistory(c txnCase) txnResult {
 		}
 		if o.Note != "" {
 			rd["note"] = o.Note
+		}
+		if o.Leak != "" {
+			rd["concurrent_reader"] = o.Leak
+			res.leaks = append(res.leaks, o.Leak)
 		}
 		if !alive {
 			rd["process"] = "died"
@@ -1785,6 +1833,10 @@ func runC18() {
 			meta.Count("child", "died")
 		}
 		meta.Record(res.coq, res.nontriv, res.readable)
+		if len(res.leaks) > 0 {
+			meta.DirectFail(map[string]any{"kind": "staged-value-visible", "what": "while an update was being checked, written and committed, a concurrent Read() returned a value that was in force neither before nor after it",
+				"observations": res.leaks, "history": res.readable})
+		}
 	}
 
 	// verify on boundary values (the generator draws from r: sequentially), starts in parallel
